@@ -67,6 +67,9 @@ type stubSumDB struct {
 	// failure of the server); whatever the client does next must still only ask for reference paths
 	flaky  string
 	flaked int
+	// prefix: the log is configured with a URL that has a path component (a SumDB reached through a proxy);
+	// every request must be made below it
+	prefix string
 }
 
 func (s *stubSumDB) latest() []byte {
@@ -83,6 +86,18 @@ func (s *stubSumDB) RoundTrip(q *http.Request) (*http.Response, error) {
 	s.mu.Lock()
 	s.paths = append(s.paths, p)
 	s.mu.Unlock()
+	if s.prefix != "" {
+		if !strings.HasPrefix(p, s.prefix+"/") {
+			s.mu.Lock()
+			s.n404++
+			s.mu.Unlock()
+			if s.stop != nil {
+				s.stop()
+			}
+			return mk(404, nil) // outside the configured base URL
+		}
+		p = strings.TrimPrefix(p, s.prefix)
+	}
 	if p == "/latest" {
 		return mk(200, s.latest())
 	}
@@ -205,7 +220,14 @@ func main() {
 			to = 300 + r.Uint64N(70000)
 		}
 		from := 1 + r.Uint64N(to-1)
-		pairFlaky(run, unit, tree, key, from, to, true, []string{"partial", "full"}[unit%2])
+		pairFlaky(run, unit, tree, key, from, to, true, []string{"partial", "full"}[unit%2], "")
+	})
+	// the log's configured URL has a path component
+	run.Floor("pairs_with_base_url_path", 24)
+	run.Units("base_url_path", run.Pick(48, 400), 0, func(unit int64, r *rand.Rand) {
+		to := 2 + r.Uint64N(3000)
+		from := 1 + r.Uint64N(to-1)
+		pairFlaky(run, unit, tree, key, from, to, true, "", []string{"/sumdb/sum.example.org", "/mirror"}[unit%2])
 	})
 	run.Units("chains", run.Pick(24, 240), 0, func(unit int64, r *rand.Rand) { chain(run, unit, r, tree, key) })
 	if run.Thorough() {
@@ -277,11 +299,14 @@ func paths(run *ev.Run) {
 }
 
 func pair(run *ev.Run, unit int64, tree *reftree.Tree, key *refnote.SignKey, from, to uint64, sample bool) {
-	pairFlaky(run, unit, tree, key, from, to, sample, "")
+	pairFlaky(run, unit, tree, key, from, to, sample, "", "")
 }
 
-func pairFlaky(run *ev.Run, unit int64, tree *reftree.Tree, key *refnote.SignKey, from, to uint64, sample bool, flaky string) {
-	stub := &stubSumDB{t: tree, key: key, size: to, cache: map[string][]byte{}, flaky: flaky}
+func pairFlaky(run *ev.Run, unit int64, tree *reftree.Tree, key *refnote.SignKey, from, to uint64, sample bool, flaky, prefix string) {
+	stub := &stubSumDB{t: tree, key: key, size: to, cache: map[string][]byte{}, flaky: flaky, prefix: prefix}
+	if prefix != "" {
+		run.Count("pairs_with_base_url_path")
+	}
 	if flaky != "" {
 		defer func() {
 			if stub.flaked > 0 {
@@ -292,7 +317,7 @@ func pairFlaky(run *ev.Run, unit int64, tree *reftree.Tree, key *refnote.SignKey
 	rt := tree.Root(from)
 	ftext := string(tlog.FormatTree(tlog.Tree{N: int64(from), Hash: tlog.Hash(rt)}))
 	w := &recWitness{latest: refnote.Assemble(ftext, key.SigLine(ftext))}
-	cl, err := config.NewLog(origin, key.Vkey(), "http://sumdb.invalid")
+	cl, err := config.NewLog(origin, key.Vkey(), "http://sumdb.invalid"+stub.prefix)
 	if err != nil {
 		run.Inconclusive(err.Error())
 		return
